@@ -451,6 +451,118 @@ func (x *env) seqHistory(h int) {
 	}
 }
 
+// directedFaultPhase enumerates (faulted op that moves the window far ahead) x (fault mode) x
+// (follow-up op) completely: the window save of the first op is failed before sending or after
+// commit, then each kind of follow-up runs; the stored bound must never decrease and every grant
+// must stay below it, and every crash point is checked as in the sequential histories.
+func (x *env) directedFaultPhase() {
+	r := x.r
+	type op struct {
+		name string
+		run  func(s *seqRun)
+	}
+	setBy := func(d time.Duration) func(s *seqRun) {
+		return func(s *seqRun) {
+			p, _ := s.currentTS()
+			err := s.serving.Alloc.SetTSO(tsoutil.GenerateTS(tsoutil.GenerateTimestamp(time.Unix(0, p*int64(time.Millisecond)).Add(d), 0)))
+			s.record("set", d.String(), err)
+		}
+	}
+	updWith := func(clock string) func(s *seqRun) {
+		return func(s *seqRun) {
+			time.Sleep(3 * time.Millisecond)
+			tsow.SetClock(clock)
+			s.clock = clock
+			err := s.serving.Alloc.UpdateTSO()
+			tsow.SetClock(tsow.ClockNormal)
+			s.clock = tsow.ClockNormal
+			s.record("upd", clock, err)
+		}
+	}
+	reinit := func(clock string) func(s *seqRun) {
+		return func(s *seqRun) {
+			s.serving.Alloc.Reset()
+			tsow.SetClock(clock)
+			err := s.serving.Alloc.Initialize(0)
+			tsow.SetClock(tsow.ClockNormal)
+			s.record("reinit", clock, err)
+		}
+	}
+	firsts := []op{{"set+1h", setBy(time.Hour)}, {"set+10m", setBy(10 * time.Minute)}, {"set+2s", setBy(2 * time.Second)}}
+	if x.fpLive {
+		firsts = append(firsts, op{"upd(+1h)", updWith(tsow.ClockFastUpdate)}, op{"reinit(+1h)", reinit(tsow.ClockFastSync)})
+	}
+	seconds := []op{{"upd", updWith(tsow.ClockNormal)}, {"set+5ms", setBy(5 * time.Millisecond)}, {"set+1s", setBy(time.Second)}, {"reinit", reinit(tsow.ClockNormal)},
+		{"upd,upd", func(s *seqRun) { updWith(tsow.ClockNormal)(s); updWith(tsow.ClockNormal)(s) }}}
+	for _, saveIv := range []time.Duration{50 * time.Millisecond, 3 * time.Second} {
+		for _, f := range firsts {
+			for _, mode := range []etcdx.FaultMode{etcdx.FailBefore, etcdx.LostAck} {
+				for _, g := range seconds {
+					w, err := tsow.NewWorld(x.e, x.root("d"), 1, saveIv, 50*time.Millisecond)
+					if err != nil {
+						r.Inconclusive("world: %v", err)
+						return
+					}
+					s := &seqRun{x: x, w: w, saveIv: saveIv, clock: tsow.ClockNormal}
+					s.hookWrites()
+					s.serving = w.Members[0]
+					if s.serving.Campaign(true) != nil || s.serving.Alloc.Initialize(0) != nil {
+						w.Close()
+						r.Inconclusive("directed setup failed")
+						return
+					}
+					s.record("init", "normal", nil)
+					s.grant(1)
+					fired := false
+					cl := s.serving.Cl
+					cl.Decide = func(rpc *etcdx.RPC) etcdx.FaultMode {
+						if !fired && rpc.Method == "Txn" && len(rpc.Keys) > 0 && rpc.Keys[0] == w.TimestampKey() {
+							fired = true
+							r.Count("window_write_faults_injected", 1)
+							return mode
+						}
+						return etcdx.NoFault
+					}
+					f.run(s)
+					cl.Decide = nil
+					s.ensureInit()
+					if !s.bad {
+						s.grant(1)
+						s.takeover("after the faulted op")
+						g.run(s)
+						s.ensureInit()
+					}
+					if !s.bad {
+						s.grant(1)
+						s.takeover("after the follow-up op")
+					}
+					s.serving.Resign()
+					hs, err := x.e.History(w.TimestampKey(), w.StartRev)
+					if err == nil {
+						var prev int64
+						for _, hv := range hs {
+							if hv.Delete {
+								continue
+							}
+							v := tsow.DecodeBound([]byte(hv.Value))
+							if v < prev {
+								r.Violation("stored-bound-decreases:after-failed-save", fmt.Sprintf("stored time window went from %d to %d ns (faulted %s [%v], then %s)", prev, v, f.name, mode, g.name), s.witness(map[string]interface{}{"history": hs}))
+								break
+							}
+							prev = v
+						}
+					}
+					w.Close()
+					r.Eval(1)
+					r.Count("directed_fault_histories", 1)
+					r.Distinct(fmt.Sprintf("directed|%s|%s|%d|%s|%v", saveIv, f.name, mode, g.name, fired))
+				}
+			}
+		}
+	}
+	tsow.SetClock(tsow.ClockNormal)
+}
+
 // gated: UpdateTSO || SetTSO (|| SetTSO) on the serving member; every release order of their
 // window transactions.
 func (x *env) gatedPhase() {
@@ -733,6 +845,7 @@ func main() {
 	r.Set("clock_failpoints_effective", x.fpLive)
 	_ = hist.Now
 	x.gatedPhase()
+	x.directedFaultPhase()
 	nh := r.Pick(40, 400)
 	for h := 0; h < nh; h++ {
 		x.seqHistory(h)
